@@ -364,9 +364,7 @@ theorem checkmateValue_false {v : Int} (h : isCheckmateValue v = false) : -INF +
   simp only [Bool.or_eq_false_iff, decide_eq_false_iff_not] at h
   omega
 
-theorem contempt_bounds (p : Pos) : 0 ≤ contempt p ∧ contempt p ≤ 400 := by
-  unfold contempt
-  split <;> omega
+theorem contempt_bounds (p : Pos) : -1000 ≤ contempt p ∧ contempt p ≤ 1000 := contempt_small p
 
 theorem mateValue_eq' (ply : Nat) (h : ply ≤ 65534) : w16 (-INF + ply) = -INF + ply := by
   unfold w16; rw [INF_eq]; omega
